@@ -113,7 +113,7 @@ var props = map[string]*propConfig{
 			{Name: "saturation", Flags: map[string]string{"family": "saturation"}, Quick: 4000, Thorough: 600000},
 		},
 		QuickBudget: 90 * time.Second, ThoroughBudget: 25 * time.Minute, Chunk: 125,
-		Rule: "one run = one seeded execution of 2..4 threads x 1..6 counters (shared, private, same-name aliases, long names that cross pages, stack counters) with a concurrent first open, file growth and clock-driven rotation, scheduled at the granularity of single atomic operations, lock acquisitions and Counter.ptr accesses; distinct = distinct event-log hash; non-trivial = at least one context switch between live tasks; names include the longest a record can hold, names no record can hold (empty, over 4096 bytes: their counts stay in memory by design) and stack names cut to the maximum length; one to three rotations in a row; in a quarter of the saturation family's runs every thread adds the largest amount (2^63-1 less 0..2) to one counter, so that the adders meet just below 2^63 inside each other's load and add",
+		Rule: "one run = one seeded execution of 2..4 threads x 1..6 counters (shared, private, same-name aliases, long names that cross pages, stack counters) with a concurrent first open, file growth and clock-driven rotation, scheduled at the granularity of single atomic operations, lock acquisitions and Counter.ptr accesses; distinct = distinct event-log hash; non-trivial = at least one context switch between live tasks; names include the longest a record can hold, names no record can hold (empty, over 4096 bytes: their counts stay in memory by design) and stack names cut to the maximum length; one to three rotations in a row; in a quarter of the saturation family's runs every thread adds the largest amount (2^63-1 less 0..2) to one counter, so that the adders meet just below 2^63 inside each other's load and add; in a quarter of the runs whose file is opened before or with the threads a further thread calls rotate1 one to three times with nothing to rotate (Open called again, a timer firing early) while the adders grow and re-map the file; the simulated kernel reuses a freed range at once, so a second munmap of one mapping takes away the process's newest mapping made since (never observed on the pinned tree)",
 		Real: []string{"internal/counter (all of it, instrumented build generated from the working tree)", "internal/mmap", "internal/telemetry", "Linux tmpfs and mmap(MAP_SHARED)"},
 		Stub: []string{"munmap replaced by mprotect(PROT_NONE) so that use-after-unmap faults deterministically", "Go scheduler (replaced by the tape-driven scheduler)", "wall clock"},
 		Assumptions: []string{
@@ -161,7 +161,7 @@ var props = map[string]*propConfig{
 			{Name: "upload-failures", Harness: "h2", Flags: map[string]string{"family": "upload"}, Quick: 240, Thorough: 80000},
 		},
 		QuickBudget: 100 * time.Second, ThoroughBudget: 14 * time.Minute, Chunk: 10,
-		Rule: "call-failures: one seeded workload (1..2 processes x 1..2 threads, first open, increments incl. page growth, optional rotation, optional deletion of files in use, directory found as a regular file) is executed fault-free to count its N file-system/mmap calls, then re-executed once per (call index, errno in ENOENT/EACCES/EROFS/ENOSPC/EIO/EMFILE/EINTR, or short write) [quick: every call with a third of the errnos plus all short writes], once per persistent state (read-only, permission denied, mmap always failing) and for a sample of pairs (thorough: all pairs when N<=60); corruption-at-rest: a valid file built by the independent encoder is damaged (random bytes, truncation classes, header length, limit, bucket heads, name lengths, next links incl. self-loops, longer cycles and cross-chain links, for plain and ditto-compressed stack names) and then opened and incremented by the library; evaluations = executions; distinct = distinct event-log hash of the last execution of each workload; non-trivial = a fault fired or the file was damaged; upload-failures: the directory as found may also hold files whose names only nearly match the data-file patterns (x.json, .json, local..json, 2024.json, .v1.count, ...); both worlds may find a mode file cut short or otherwise odd; directory states include odd week-end files; persistent states include a file system without hard links and disk full / read-only / mmap failing from call k on",
+		Rule: "call-failures: one seeded workload (1..2 processes x 1..2 threads, first open, increments incl. page growth, optional rotation, optional deletion of files in use, directory found as a regular file) is executed fault-free to count its N file-system/mmap calls, then re-executed once per (call index, errno in ENOENT/EACCES/EROFS/ENOSPC/EIO/EMFILE/EINTR, or short write) [quick: every call with a third of the errnos plus all short writes], once per persistent state (read-only, permission denied, mmap always failing) and for a sample of pairs (thorough: all pairs when N<=60); corruption-at-rest: a valid file built by the independent encoder is damaged (random bytes, truncation classes, header length, limit, bucket heads, name lengths, next links incl. self-loops, longer cycles and cross-chain links, for plain and ditto-compressed stack names) and then opened and incremented by the library; evaluations = executions; distinct = distinct event-log hash of the last execution of each workload; non-trivial = a fault fired or the file was damaged; upload-failures: the directory as found may also hold files whose names only nearly match the data-file patterns (x.json, .json, local..json, 2024.json, .v1.count, ...); both worlds may find a mode file cut short or otherwise odd; directory states include odd week-end files; persistent states include a file system without hard links and disk full / read-only / mmap failing from call k on; corruption-at-rest: one file in twenty is left intact and grown (sparse) to 4 GiB and 0..3 pages while nobody has it open, so that lengths no longer fit 32 bits",
 		Real: []string{"internal/counter", "internal/mmap", "internal/telemetry", "Linux tmpfs / mmap"},
 		Stub: []string{"failing calls are injected by the file-system shim instead of being performed", "Go scheduler", "wall clock"},
 		Assumptions: []string{
@@ -217,7 +217,7 @@ var props = map[string]*propConfig{
 			{Name: "rerun-after-disk-failure", Flags: map[string]string{"family": "diskfault"}, Quick: 160, Thorough: 40000},
 		},
 		QuickBudget: 100 * time.Second, ThoroughBudget: 13 * time.Minute, Chunk: 50,
-		Rule:        "as C07 in mode on with 2..4 concurrent uploaders per round and per-request server fates (200, 4xx, 5xx, no answer, processed-but-answer-lost, duplicate delivery); kills family: an uploader is killed after a file-system or HTTP call with probability 1/150 per marked call (nothing unwound: the lock file stays); checked over the server-side history: all accepted bodies of a week identical, no request for a week that was acknowledged and recorded as uploaded, after 5xx/no answer the receiving task leaves the report alone, after 4xx it does not mark it uploaded; no-kill family additionally: once the server answers 200, three more sequential runs deliver every sendable week, each acknowledged to a client exactly once; client-error answers are drawn from 400..499 and server-error answers from 500..599; one round in ten is preceded by the clock being set back 1..20 days; one crash-free run in eight has an upload directory that cannot be created: delivery is not demanded there, more than one acknowledgement of a week is a violation; rerun-after-disk-failure: each single call failure of the upload-failure world (see C05) is followed by two more runs on a healthy disk, after which no week that was acknowledged while its uploaded marker existed may have been sent again (evaluations = executions)",
+		Rule:        "as C07 in mode on with 2..4 concurrent uploaders per round and per-request server fates (200, 4xx, 5xx, no answer, processed-but-answer-lost, duplicate delivery); kills family: an uploader is killed after a file-system or HTTP call with probability 1/150 per marked call (nothing unwound: the lock file stays); checked over the server-side history: all accepted bodies of a week identical, no request for a week that was acknowledged and recorded as uploaded, after 5xx/no answer the receiving task leaves the report alone, after 4xx it does not mark it uploaded; no-kill family additionally: once the server answers 200, three more sequential runs deliver every sendable week, each acknowledged to a client exactly once; client-error answers are drawn from 400..499 and server-error answers from 500..599; one round in ten is preceded by the clock being set back 1..20 days; one crash-free run in eight has an upload directory that cannot be created: delivery is not demanded there, more than one acknowledgement of a week is a violation; rerun-after-disk-failure: each single call failure of the upload-failure world (see C05) is followed by two more runs on a healthy disk, after which no week that was acknowledged while its uploaded marker existed may have been sent again (evaluations = executions); once a round is over, every uploader that was answered 4xx and ran to its end (not killed, healthy disk) must have removed the week's waiting report or tried to (rejected-report-kept)",
 		Real:        []string{"internal/upload (all of it: findWork, reports, createReport, uploadReport; instrumented)", "internal/telemetry (mode file)", "internal/config", "internal/counter.Parse (uninstrumented in this world)", "cmd/gotelemetry runOn/runLocal/runOff/runClean", "Linux tmpfs (O_EXCL, link, rename semantics are the kernel's)"},
 		Stub:        []string{"the `go` command that internal/configstore.Download runs (`go mod download -json`): simulated, it prints the module directory of the simulated config store's current version; Download itself is the real code", "upload server: a policy stub deciding each request's fate (200 / 4xx / 5xx / no answer / processed-but-answer-lost / duplicate delivery); its verdict on a given body is stable", "counter files are produced by the independent encoder (refformat)", "crypto/rand.Reader replaced so that X is chosen by the tape", "Go scheduler, wall clock"},
 		Assumptions: []string{"the server is adversarial about availability, not validity: it never accepts a body it has rejected, nor rejects one it has accepted", "liveness is claimed without kills only (a kill legitimately leaves a stale lock)", "kill = SIGKILL between two calls"},
@@ -240,10 +240,10 @@ var props = map[string]*propConfig{
 			{Name: "counter-api-off", Harness: "h1", Flags: map[string]string{"family": "counteroff"}, Quick: 4000, Thorough: 400000},
 		},
 		QuickBudget: 100 * time.Second, ThoroughBudget: 25 * time.Minute, Chunk: 50,
-		Rule:        "histories in which between rounds the mode changes (SetModeAsOf with back-dated opt-in dates, arbitrary bytes in the mode file, invalid modes) and counter-file begin/end, opt-in date and run time are placed on a simulated calendar; per request: the independently parsed mode is exactly on, the week is not in the future and after the opt-in date; per uploadable report: built in mode on, week not older than 21 days, X not above a positive sample rate, all data strictly after the opt-in date; rounds in mode off: no mutating call on and no change to any counter file or report; SetModeAsOf/Mode round trip and rejection of invalid modes leaving the bytes unchanged; a third of the library calls are SetMode without a time (today's UTC date must be read back, also when the file already names that mode); the mode file may be removed; one start in five is placed exactly 21 days after a week's end (-1 ns, 0, +1 ns)",
+		Rule:        "histories in which between rounds the mode changes (SetModeAsOf with back-dated opt-in dates, arbitrary bytes in the mode file, invalid modes) and counter-file begin/end, opt-in date and run time are placed on a simulated calendar; per request: the independently parsed mode is exactly on, the week is not in the future and after the opt-in date; per uploadable report: built in mode on, week not older than 21 days, X not above a positive sample rate, all data strictly after the opt-in date; rounds in mode off: no mutating call on and no change to any counter file or report; SetModeAsOf/Mode round trip and rejection of invalid modes leaving the bytes unchanged; a third of the library calls are SetMode without a time (today's UTC date must be read back, also when the file already names that mode); the mode file may be removed; one start in five is placed exactly 21 days after a week's end (-1 ns, 0, +1 ns); one hand-made mode file in about twenty is there and cannot be read (a directory has its name: the sandbox runs as root)",
 		Real:        []string{"internal/upload (all of it: findWork, reports, createReport, uploadReport; instrumented)", "internal/telemetry (mode file)", "internal/config", "internal/counter.Parse (uninstrumented in this world)", "cmd/gotelemetry runOn/runLocal/runOff/runClean", "Linux tmpfs (O_EXCL, link, rename semantics are the kernel's)"},
 		Stub:        []string{"the `go` command that internal/configstore.Download runs (`go mod download -json`): simulated, it prints the module directory of the simulated config store's current version; Download itself is the real code", "upload server: a policy stub deciding each request's fate (200 / 4xx / 5xx / no answer / processed-but-answer-lost / duplicate delivery); its verdict on a given body is stable", "counter files are produced by the independent encoder (refformat)", "crypto/rand.Reader replaced so that X is chosen by the tape", "Go scheduler, wall clock"},
-		Assumptions: []string{"counter-api-off family (counter world): with the mode file saying off when the process starts, Open / OpenAndRotate (package-level and per-file), increments, the rotation timer and clock jumps perform no mutating file-system call and leave the directory (incl. data left from earlier) byte-identical", "an unreadable mode file is modelled by content the parser cannot read, not by permissions (the sandbox runs as root)"},
+		Assumptions: []string{"counter-api-off family (counter world): with the mode file saying off when the process starts, Open / OpenAndRotate (package-level and per-file), increments, the rotation timer and clock jumps perform no mutating file-system call and leave the directory (incl. data left from earlier) byte-identical", "an unreadable mode file is modelled by content the parser cannot read and by a directory that has the file's name, not by permissions (the sandbox runs as root)"},
 		Probes:      []string{"week-reported"},
 	},
 	"C19": {
